@@ -26,7 +26,7 @@ RULE = ("objects = LASFiles built in memory or read back from text (mnemonic_cas
 ASSUMPTIONS = ["write() output is compared only when the original itself can be written",
                "observable equality = canonical snapshot (rv/canon.py) + write() text; identity of objects is not required"]
 REQUIRED = ["copies_compared", "objects_with_edited_index", "objects_with_disambiguated_mnemonic", "independence_checks", "write_text_comparisons",
-            "item_copies", "section_copies"]
+            "item_copies", "section_copies", "items_with_identity_sensitive_value"]
 SOFT_DEADLINE = {"quick": 90, "thorough": 1200}
 LEVEL_TEXT = ("Exploration: every copy made is compared field by field and by write() output with its source, and "
               "mutated to prove independence; workload aims at disambiguated mnemonics in every section kind.")
@@ -43,14 +43,14 @@ for sect in ("well", "params", "curves", "custom"):
 
 def grid(tier):
     import random
-    for k in range(48):
+    for k in range(60):
         rng = random.Random("C17grid%d" % k)
         spec = lasobj.rand_spec(rng, text_curve=0.0, min_curves=3, custom=0.0)
         if len(spec["curves"][0][4]) < 4:
             for c in spec["curves"]:
                 c[4] = (c[4] * 4)[:4]
             spec["curves"][0][4] = [100.0 + 0.5 * i for i in range(4)]
-        variant = ["numeric_text_curve", "stale_suffix", "edited_index", "padded_names"][k % 4]
+        variant = ["numeric_text_curve", "stale_suffix", "edited_index", "padded_names", "singleton_values"][k % 5]
         yield {"kind": "spec", "spec": spec, "via": "upper" if variant == "edited_index" else None, "methods": METHODS, "variant": variant}
     for sect, names in GRID_SPECS:
         for via in (None, "preserve", "upper", "lower"):
@@ -66,7 +66,7 @@ def n_random(tier):
 def random_case(rng, tier):
     spec = lasobj.rand_spec(rng)
     via = rng.choice([None, None, "preserve", "upper", "lower"])
-    return {"kind": "spec", "spec": spec, "via": via, "methods": rng.sample(METHODS, 3), "seed_variant": rng.randrange(5)}
+    return {"kind": "spec", "spec": spec, "via": via, "methods": rng.sample(METHODS, 3), "seed_variant": rng.randrange(6)}
 
 
 def layout_spec(section, names):
@@ -117,7 +117,7 @@ def run_case(case, ctx):
         if via and (case["kind"] == "layout" or text_can_carry(spec)) and not _has_custom_or_textcurve(spec):
             spec["via_text"] = {"read": {"mnemonic_case": via}}
         methods = case.get("methods", METHODS)
-        variant = case.get("variant") or ("none" if case["kind"] == "layout" else ["none", "numeric_text_curve", "stale_suffix", "edited_index", "padded_names"][case.get("seed_variant", 0) % 5])
+        variant = case.get("variant") or ("none" if case["kind"] == "layout" else ["none", "numeric_text_curve", "stale_suffix", "edited_index", "padded_names", "singleton_values"][case.get("seed_variant", 0) % 6])
 
         def rebuild():
             las = lasobj.build(lasio, spec)
@@ -141,6 +141,15 @@ def run_case(case, ctx):
                 las.params[-1].mnemonic = "   "
                 for sec in (las.curves, las.params):
                     sec.assign_duplicate_suffixes()
+            if variant == "singleton_values":
+                # values whose *identity* a copy cannot keep (the np.nan object, a fresh float NaN, None, bools, numpy scalars)
+                vals = [np.nan, float("nan"), None, True, False, np.float64("nan"), np.int64(3), np.float64(0.0), 10 ** 20, ""]
+                for k, v in enumerate(vals):
+                    las.well.append(lasio.HeaderItem("SV%d" % k, ["DEGC", ""][k % 2], v, "singleton %d" % k))
+                    las.params.append(lasio.HeaderItem("SP%d" % k, ["", "DEGC"][k % 2], v, "singleton %d" % k))
+                    ctx.count("items_with_identity_sensitive_value", 2)
+                if len(las.curves) >= 2:
+                    las.curves[1].value = np.nan
             if variant == "stale_suffix":
                 # delete the first member of every duplicate family: the survivors keep their (now stale) suffixes
                 for sec in las.sections.values():
